@@ -137,8 +137,19 @@ pub(crate) struct CMsgIter {
 }
 
 impl CMsgIter {
+    /// For the builder: the buffer has to hold at least one header.
     pub(crate) fn new(ptr: *const u8, len: usize) -> Self {
         assert!(len >= unsafe { CMSG_SPACE(0) as _ }, "buffer too short");
+        Self::new_iter(ptr, len)
+    }
+
+    /// For the iterator: a buffer that cannot hold even one header holds no
+    /// message (the empty list is encoded as an empty buffer,
+    /// `msg_controllen == 0`).
+    pub(crate) fn new_iter(ptr: *const u8, len: usize) -> Self {
+        if len < unsafe { CMSG_SPACE(0) as usize } {
+            return Self { len, offset: None };
+        }
         assert!(ptr.cast::<cmsghdr>().is_aligned(), "misaligned buffer");
 
         let msg = msghdr_from_raw(ptr.cast_mut(), len);
